@@ -331,6 +331,59 @@ func runC05(c *eng.Ctx) {
 	ruleEpochCacheShapes(c)
 	c.Floor(9)
 
+	// ---- R05.7 crash-safe ordering of destructive steps
+	c.Rule("R05.7", "K2")
+	if fn := c.Fn(cl + "(*segment).Delete"); fn != nil {
+		// recovery knows how to deal with an index that has no log (open() removes it); a log without its index is re-opened
+		// as a segment whose messages are not indexed. So the log goes first.
+		var rmLog, rmIdx []ssa.Instruction
+		for _, r := range eng.CallsIn(fn, "os.Remove") {
+			a := r.Common().Args[0]
+			switch {
+			case eng.Call(-1, cl+"index.Name")(a):
+				rmIdx = append(rmIdx, r.(ssa.Instruction))
+			case eng.Call(-1, "os.File.Name")(a):
+				rmLog = append(rmLog, r.(ssa.Instruction))
+			}
+		}
+		ok := len(rmLog) == 1 && len(rmIdx) == 1
+		if ok {
+			g, _ := eng.PrecededBy(fn, rmIdx[0], func(x ssa.Instruction) bool { return x == rmLog[0] })
+			// allowed alternative: the log did not exist (exists(log) false) — then nothing needs to precede
+			noLog := eng.BoolEdges(fn, eng.Call(-1, cl+"exists"), false)
+			if !g {
+				q := &eng.PathQuery{Fn: fn, FromEntry: true, Target: func(x ssa.Instruction) bool { return x == rmIdx[0] }, CutInstr: func(x ssa.Instruction) bool { return x == rmLog[0] }, CutEdges: noLog}
+				g = q.Find() == nil
+			}
+			ok = g
+		}
+		c.Check(ok, "a segment's log file is removed before its index", p.Pos(fn.Pos()), "os.Remove(log) precedes os.Remove(index)", "segment.Delete can remove the index while the log file still exists: a crash in between leaves a log without index, which recovery re-opens as a segment whose stored messages are unreachable (an orphan index, by contrast, is cleaned up by open())")
+	}
+	if fn := c.Fn(cl + "(*commitLog).Truncate"); fn != nil {
+		// the epoch cache is trimmed after the log: recovery trims epochs beyond the log end (ClearLatest in New), but has no
+		// way to restore epochs that were dropped while the messages they describe are still in the log
+		cls := eng.CallsIn(fn, cl+"leaderEpochCache.ClearLatest")
+		ok := len(cls) == 1
+		var w *eng.Witness
+		if ok {
+			q := &eng.PathQuery{Fn: fn, FromAfter: []ssa.Instruction{cls[0].(ssa.Instruction)}, Target: func(x ssa.Instruction) bool {
+				if eng.IsCallTo(cl+"segment.Delete", cl+"segment.Replace", cl+"segment.WriteMessageSet")(x) {
+					return true
+				}
+				st, isSt := x.(*ssa.Store)
+				if !isSt {
+					return false
+				}
+				fa, isFA := st.Addr.(*ssa.FieldAddr)
+				return isFA && eng.FieldNameOf(fa) == "segments" && ownerName(fa) == "commitLog"
+			}}
+			w = q.Find()
+			ok = w == nil
+		}
+		c.Check(ok, "Truncate trims the epoch cache after the log itself", p.Pos(fn.Pos()), "ClearLatest(offset) is the last destructive step", "Truncate trims (and flushes) the leader epoch cache before the segments are deleted / rewritten (path "+w.String()+"): a crash in between leaves messages in the log whose epoch boundary is gone, and the follower later truncates to the wrong offset")
+	}
+	c.Floor(2)
+
 	// ---- R05.6 lock regions
 	c.Rule("R05.6", "K4")
 	if fn := c.Fn(cl + "(*commitLog).Truncate"); fn != nil {
